@@ -1,0 +1,71 @@
+//go:build verif
+
+package dispatcher
+
+import (
+	"context"
+	"net"
+	"net/url"
+	"time"
+
+	"github.com/nuetzliches/hookaido/internal/queue"
+)
+
+// Verification-build wrappers exposing unexported deciders unchanged.
+
+type VerifAction struct {
+	Kind    string
+	LeaseID string
+	Delay   time.Duration
+	Reason  string
+}
+
+func (d *PushDispatcher) VerifClassify(env queue.Envelope, target TargetConfig) VerifAction {
+	a := d.classifyDelivery(nil, env, target)
+	kind := "ack"
+	switch a.kind {
+	case leaseActionNack:
+		kind = "retry"
+	case leaseActionMarkDead:
+		kind = "dead"
+	}
+	return VerifAction{Kind: kind, LeaseID: a.leaseID, Delay: a.delay, Reason: a.reason}
+}
+
+func (d *PushDispatcher) VerifHandleDelivery(env queue.Envelope, target TargetConfig) {
+	d.handleDelivery(nil, env, target)
+}
+
+func VerifRetryDelay(attempt int, retry RetryConfig) time.Duration { return retryDelay(attempt, retry) }
+
+func VerifRouteLeaseTTL(targets []TargetConfig, leaseSlack time.Duration, dequeueBatch int) time.Duration {
+	return routeLeaseTTL(targets, leaseSlack, dequeueBatch)
+}
+
+func VerifRouteDequeueBatch(concurrency, targetCount int) int {
+	return routeDequeueBatch(concurrency, targetCount)
+}
+
+func VerifRouteMutationBatch(dequeueBatch int) int { return routeMutationBatch(dequeueBatch) }
+
+type VerifLookup func(ctx context.Context, host string) ([]net.IPAddr, error)
+
+func (f VerifLookup) LookupIPAddr(ctx context.Context, host string) ([]net.IPAddr, error) {
+	return f(ctx, host)
+}
+
+func VerifCheckEgressPolicy(ctx context.Context, rawURL string, policy EgressPolicy, lookup VerifLookup) error {
+	return checkEgressPolicy(ctx, rawURL, policy, lookup)
+}
+
+func VerifCheckEgressPolicyURL(ctx context.Context, u *url.URL, policy EgressPolicy, lookup VerifLookup) error {
+	return checkEgressPolicyURL(ctx, u, policy, lookup)
+}
+
+func VerifIsAllowedIP(ip net.IP) bool { return isAllowedIP(ip) }
+
+func VerifMatchHostRule(host string, rule EgressRule) bool { return matchHostRule(host, rule) }
+
+func VerifSelectSigningSecretRef(cfg *HMACSigningConfig, at time.Time) (string, error) {
+	return selectSigningSecretRef(cfg, at)
+}
